@@ -38,12 +38,13 @@ type Unit struct {
 // pair (oracle parameter, error flag); Effect, when set, records the call with the listed
 // arguments in the unit's effect list.
 type callSpec struct {
-	Value  V
-	Effect string
-	Args   []int
-	Walk   string // `coll.Walk(ctx, nil, closure)`: Lean term (over %s = the store) for the list of records visited
-	Store  string // store-threaded units: Lean term over `st__` and the arguments (%1 …)
-	Kind   string // "r" read, "w" write (new store), "rw" read-and-write ((value, store'))
+	Value      V
+	Effect     string
+	Args       []int
+	Walk       string // `coll.Walk(ctx, nil, closure)`: Lean term (over %s = the store) for the list of records visited
+	WalkPrefix string // `coll.Walk(ctx, rng, closure)` with rng a prefixed pair range: the same, over %s and the prefix %p
+	Store      string // store-threaded units: Lean term over `st__` and the arguments (%1 …)
+	Kind       string // "r" read, "w" write (new store), "rw" read-and-write ((value, store'))
 }
 
 const (
@@ -429,5 +430,42 @@ func init() {
 				"types.DefaultGenesis": {Value: V{"Go.defaultGenesis", "GenesisG"}},
 			},
 			TypeNames: map[string]LT{"*codectypes.Any": "Auction"}},
+	)
+}
+
+func init() {
+	// ---- the keeper's keyed getters (keeper/bid.go, match.go, vesting.go, allowed_bidder.go,
+	// auction.go), store-threaded: what the oracle functions of the handlers ARE, read off the
+	// code — a prefixed range, a filter in the Walk closure, "not found means 0"
+	kctx := []gparam{{Go: "k", T: "Keeper"}, {Go: "ctx"}}
+	errIs := callSpec{Value: V{"%1", "Bool"}} // the only error a Get on the model's store returns is not-found
+	get := func(name, file string, params []gparam, ret []LT, calls map[string]callSpec, tn map[string]LT) Unit {
+		return Unit{Group: "Getters", Name: name, Pkg: keeperP, Recv: "Keeper", RecvLean: "Keeper", Func: name, StoreOn: true, JoinIfs: true,
+			Params: append(append([]gparam{}, kctx...), params...), Ret: ret, Calls: calls, TypeNames: tn}
+	}
+	units = append(units,
+		get("GetNextBidIdWithUpdate", "bid.go", []gparam{{Go: "auctionId", T: "Int"}}, []LT{"Int", "Err"},
+			map[string]callSpec{
+				"k.BidSeq.Get": {Store: "(GStore.bidSeqGet st__ %1)", Kind: "r", Args: []int{1}, Value: V{T: "(Int × Err)"}},
+				"k.BidSeq.Set": {Store: "(GStore.bidSeqSet st__ %1 %2)", Kind: "w", Args: []int{1, 2}},
+				"errors.Is":    errIs,
+			}, nil),
+		get("GetBidsByAuctionId", "bid.go", []gparam{{Go: "auctionId", T: "Int"}}, []LT{"List Bid", "Err"},
+			map[string]callSpec{"k.Bid.Walk": {Walk: "(GStore.allBids %s)", WalkPrefix: "(GStore.bidsOf %s %p)", Value: V{T: "List Bid"}}},
+			map[string]LT{"types.Bid": "Bid"}),
+		get("GetBidsByBidder", "bid.go", []gparam{{Go: "bidderAddr", T: "Acc"}}, []LT{"List Bid", "Err"},
+			map[string]callSpec{"k.Bid.Walk": {Walk: "(GStore.allBids %s)", WalkPrefix: "(GStore.bidsOf %s %p)", Value: V{T: "List Bid"}}},
+			map[string]LT{"types.Bid": "Bid"}),
+		get("GetLastMatchedBidsLen", "match.go", []gparam{{Go: "auctionId", T: "Int"}}, []LT{"Int", "Err"},
+			map[string]callSpec{
+				"k.MatchedBidsLen.Get": {Store: "(GStore.matchedLenGet st__ %1)", Kind: "r", Args: []int{1}, Value: V{T: "(Int × Err)"}},
+				"errors.Is":            errIs,
+			}, nil),
+		get("GetVestingQueuesByAuctionId", "vesting.go", []gparam{{Go: "auctionId", T: "Int"}}, []LT{"List VQ", "Err"},
+			map[string]callSpec{"k.VestingQueue.Walk": {Walk: "(GStore.allVqs %s)", WalkPrefix: "(GStore.vqsOf %s %p)", Value: V{T: "List VQ"}}},
+			map[string]LT{"types.VestingQueue": "VQ"}),
+		get("GetAllowedBiddersByAuction", "allowed_bidder.go", []gparam{{Go: "auctionId", T: "Int"}}, []LT{"List Allowed", "Err"},
+			map[string]callSpec{"k.AllowedBidder.Walk": {Walk: "(GStore.allAllowedRec %s)", WalkPrefix: "(GStore.allowedOf %s %p)", Value: V{T: "List Allowed"}}},
+			map[string]LT{"types.AllowedBidder": "Allowed"}),
 	)
 }
